@@ -352,6 +352,14 @@ theorem mem_map_lowerExact {x : Bytes} {l : List Bytes} (h : x ∈ l.map lowerEx
   | true => left; simp [hf] at hx; exact ⟨rfl, hx.symm⟩
   | false => right; simp [hf] at hx; exact ⟨rfl, hx.symm⟩
 
+theorem entryMatches_lowerExact (h e : Bytes) : entryMatches h (lowerExact e) = entryMatches h e := by
+  unfold lowerExact
+  cases hf : fuzzy e with
+  | true => simp
+  | false =>
+    simp only [Bool.false_eq_true, if_false]
+    rw [entryMatches_exact h (lower e) (by rw [fuzzy_lower]; exact hf), entryMatches_exact h e hf, lower_idem]
+
 /-- **the large-list code path computes the linear scan**, for EVERY slice `m` that is a sorted
     permutation of the lower-cased entries — i.e. whatever `sort.Slice` (unstable) returns. -/
 theorem matchHost_sorted (thr : Nat) (l m : List Bytes) (rhost : Bytes) (hl : l.length > thr)
@@ -359,9 +367,20 @@ theorem matchHost_sorted (thr : Nat) (l m : List Bytes) (rhost : Bytes) (hl : l.
     matchHost thr m rhost = l.any (entryMatches (stripPort rhost)) := by
   have hlen : m.length > thr := by
     rw [hperm.length_eq, List.length_map]; exact hl
-  unfold matchHost
+  unfold matchHost useFast
   simp only [hlen, decide_true, Bool.true_and]
+  cases hasc : asciiOnly (stripPort rhost) with
+  | false =>
+    -- non-ASCII request host: the plain linear scan over the (lower-cased, sorted) slice
+    simp only [Bool.false_and, Bool.false_eq_true, if_false]
+    rw [hostLoop_small, hperm.any_eq, List.any_map]
+    apply congrArg (fun f => l.any f)
+    funext e
+    exact entryMatches_lowerExact _ e
+  | true =>
+  simp only [Bool.true_and]
   rw [hostLoop_large _ _ hs]
+  clear hasc
   generalize stripPort rhost = h
   rw [Bool.eq_iff_iff]
   constructor
@@ -407,7 +426,7 @@ theorem matchHost_large (thr : Nat) (l : List Bytes) (rhost : Bytes) (hl : l.len
 
 theorem matchHost_small (thr : Nat) (l : List Bytes) (rhost : Bytes) (hl : ¬ l.length > thr) :
     matchHost thr l rhost = l.any (entryMatches (stripPort rhost)) := by
-  unfold matchHost
+  unfold matchHost useFast
   simp only [hl, decide_false, Bool.false_and, Bool.false_eq_true, if_false]
   exact hostLoop_small _ _
 
